@@ -306,6 +306,16 @@ Plan generate(Rng &rng, const Opts &opts, uint64_t)
             }
         }
     }
+    if (!havePlant && opts.f("allocfaults", rng.chance(1, 3) ? 1 : 0) != 0) {
+        // some questions are asked while an allocation fails inside the call
+        long nf = rng.range(2, 10);
+        for (long k = 0; k < nf; ++k) {
+            Step s;
+            s.op = "QF";
+            s.a = {long(rng.below(uint64_t(nVars))), long(rng.below(uint64_t(nVars))), long(rng.below(12))};
+            rest.push_back(s);
+        }
+    }
     for (size_t i = rest.size(); i > 1; --i) {
         std::swap(rest[i - 1], rest[rng.below(i)]);
     }
@@ -748,6 +758,40 @@ void execute(const Plan &plan, Ctx &ctx)
                 detached[ci] = false;
                 ctx.ev("ATTACH c" + str(ci));
             }
+        } else if (s.op == "QF") {
+            // Fault: an allocation fails (std::bad_alloc) somewhere inside one areEquivalentVariables() call; the caller
+            // catches it and asks again - the failed call must not have left a wrong answer behind
+            if (am == nullptr || vars.empty() || !simalloc::active()) {
+                continue;
+            }
+            size_t i = size_t(s.arg(0)) % vars.size(), j = size_t(s.arg(1)) % vars.size();
+            if (vars[i] == nullptr || vars[j] == nullptr) {
+                continue;
+            }
+            ctx.begin(stepNo, "QF", "");
+            bool threw = false, first = false;
+            simalloc::failAllocation(uint64_t(1 + (s.arg(2) < 0 ? -s.arg(2) : s.arg(2)) % 12));
+            try {
+                first = am->areEquivalentVariables(vars[i], vars[j]);
+            } catch (const std::bad_alloc &) {
+                threw = true;
+            }
+            bool fired = simalloc::allocationFailureFired();
+            simalloc::failAllocation(0);
+            if (fired) {
+                ctx.count("fault_allocation_failure_inside_a_query");
+            }
+            if (threw != fired && threw) {
+                ctx.violate("C18", "harness-bad-alloc-without-fault", "", "std::bad_alloc although no allocation failure was injected");
+                return;
+            }
+            bool again = am->areEquivalentVariables(vars[i], vars[j]), mirrored = am->areEquivalentVariables(vars[j], vars[i]);
+            ctx.ev("QF " + str(i) + " " + str(j) + " threw=" + str(threw) + " -> " + str(again) + str(mirrored));
+            if ((!threw && first != truth[i][j]) || again != truth[i][j] || mirrored != truth[i][j]) {
+                ctx.violate("C18", "wrong-answer-areEquivalentVariables", threw ? "after-allocation-failure" : "", "areEquivalentVariables(v" + str(i) + ", v" + str(j) + ") " + (threw ? "failed with std::bad_alloc, then" : "") + " answered " + str(again) + " / mirrored " + str(mirrored) + ", the connection graph says " + str(bool(truth[i][j])));
+                return;
+            }
+            ctx.nontrivial = true;
         } else if (s.op == "HX") {
             // hasEquivalentVariable() asked at any time (no analysis needed), judged against a search over the
             // equivalentVariable() lists as they are at this moment
